@@ -562,6 +562,10 @@ class Check:
                     print(line, flush=True)
                 return False
         n = len(self.violations) + 1
+        if n > 25:
+            # enough witnesses: count the rest without writing further replay directories
+            self.violations.append({"what": what, "witness": witness, "replay": None})
+            return True
         d = REPLAYS / self.pid / f"{self.tier}-{self.seed}-{n}"
         rmtree(d)
         d.mkdir(parents=True, exist_ok=True)
